@@ -128,28 +128,26 @@ def compute(
 
             freq[pos][None] += weight
 
-            # The following while-loop is equivalent to:
-            #
-            # freq[pos][synset.id] += weight
-            # for path in synset.hypernym_paths():
-            #     for ss in path:
-            #         freq[pos][ss.id] += weight
-            #
-            # ...but it caches hypernym lookups for speed
+            # The weight is added to the synset and to each of its
+            # hypernym ancestors once, even when several hypernym
+            # paths converge on an ancestor (see the documentation);
+            # hypernym lookups are cached for speed
 
-            agenda: list[tuple[Synset, set[Synset]]] = [(synset, set())]
+            seen: set[Synset] = set()
+            agenda: list[Synset] = [synset]
             while agenda:
-                ss, seen = agenda.pop()
+                ss = agenda.pop()
 
-                # avoid cycles
+                # avoid cycles and convergent paths
                 if ss in seen:
                     continue
+                seen.add(ss)
 
                 freq[pos][ss.id] += weight
 
                 if ss not in hypernym_cache:
                     hypernym_cache[ss] = ss.hypernyms()
-                agenda.extend((hyp, seen | {ss}) for hyp in hypernym_cache[ss])
+                agenda.extend(hypernym_cache[ss])
 
     return freq
 
